@@ -130,6 +130,9 @@ pub struct Ctx {
     pub strict: bool,
     /// per-case in-flight records inside exhaustive enumerations (slow re-run)
     pub slow: bool,
+    /// documents of the most recent cases evaluated by this process (hidden state between
+    /// calls: a failure is saved together with its predecessors so that it replays)
+    pub recent: std::collections::VecDeque<Value>,
 }
 
 #[derive(Clone, Debug)]
@@ -195,6 +198,7 @@ impl Ctx {
             inflight_path: None,
             strict: false,
             slow: false,
+            recent: std::collections::VecDeque::new(),
         }
     }
 
@@ -247,6 +251,15 @@ impl Ctx {
     }
 
     pub fn set_inflight(&mut self, doc: &Value) {
+        if doc.get("kind").and_then(|k| k.as_str()).map(|k| k != "exh" && k != "between" && k != "startup" && k != "done").unwrap_or(false) {
+            // keep the last few case documents (bounded in size)
+            if self.counting && doc.to_string().len() <= 600_000 {
+                self.recent.push_back(doc.clone());
+                while self.recent.len() > 4 {
+                    self.recent.pop_front();
+                }
+            }
+        }
         if let Some(p) = &self.inflight_path {
             // write + rename would be atomic but doubles the syscalls; the driver tolerates
             // a torn file (it then reports "undecided")
@@ -262,6 +275,13 @@ impl Ctx {
             o.insert("property".into(), json!(self.prop));
             o.insert("sig".into(), json!(f.sig));
             o.insert("detail".into(), json!(f.detail));
+            // predecessors (most recent last, the failing case itself excluded)
+            // (the last entry is the failing case itself: it was recorded just before its evaluation)
+            let n = self.recent.len().saturating_sub(1);
+            let hist: Vec<Value> = self.recent.iter().take(n).cloned().collect();
+            if !hist.is_empty() && !self.strict {
+                o.insert("history".into(), json!(hist));
+            }
         }
         let dir = out_root().join("replays");
         let _ = std::fs::create_dir_all(&dir);
